@@ -337,6 +337,9 @@ def process_template(unit, tmpl_path, repo_root):
                 raise CutError('cutall: no %s item matches %r in %s' % (kv_['kind'], kv_['re'], kv_['path']))
             for nm_ in names_:
                 exp.append('//@cut type kind=%s path=%s name=%s' % (kv_['kind'], kv_['path'], nm_))
+                if kv_.get('staticrefs'):
+                    # inside verus! a const of reference type needs its lifetime spelt out
+                    exp.append('//@replace ": &" ": &\'static "')
                 exp.append('//@end')
         else:
             exp.append(ln)
